@@ -1,0 +1,51 @@
+//go:build verif
+
+package client
+
+import (
+	"sort"
+	"time"
+)
+
+// VerifState is a read-only projection of the connection's per-exchange tables
+// (verification harness only).
+type VerifState struct {
+	Tokens    []uint64             // keys of the token -> response handler table
+	Mids      []int32              // keys of the message-ID -> pending confirmable table
+	MidLocks  int                  // per-message-ID locks currently allocated
+	RespCache map[string]time.Time // response cache: key -> valid until (default cache only)
+	QueueLen  int                  // received-message queue length
+	NextMID   uint32               // counter behind GetMessageID (next ID is NextMID+1 mod 2^16)
+}
+
+func (cc *Conn) VerifState() VerifState {
+	st := VerifState{RespCache: map[string]time.Time{}}
+	for k := range cc.tokenHandlerContainer.CopyData() {
+		st.Tokens = append(st.Tokens, k)
+	}
+	sort.Slice(st.Tokens, func(i, j int) bool { return st.Tokens[i] < st.Tokens[j] })
+	for k := range cc.midHandlerContainer.CopyData() {
+		st.Mids = append(st.Mids, k)
+	}
+	sort.Slice(st.Mids, func(i, j int) bool { return st.Mids[i] < st.Mids[j] })
+	cc.msgIDMutex.ml.Lock()
+	st.MidLocks = len(cc.msgIDMutex.ma)
+	cc.msgIDMutex.ml.Unlock()
+	if mc, ok := cc.responseMsgCache.(*messageCache); ok {
+		for k, e := range mc.c.CopyData() {
+			st.RespCache[k] = e.ValidUntil.Load()
+		}
+	}
+	st.QueueLen = cc.receivedMessageReader.VerifQueueLen()
+	st.NextMID = cc.msgID.Load()
+	return st
+}
+
+// VerifMidRetransmits returns, per pending message ID, the number of retransmissions done so far.
+func (cc *Conn) VerifMidRetransmits() map[int32]uint32 {
+	out := map[int32]uint32{}
+	for k, e := range cc.midHandlerContainer.CopyData() {
+		out[k] = e.retransmit.Load()
+	}
+	return out
+}
